@@ -177,7 +177,7 @@ theorem event_addressed_to_mutated_bucket (c : Call) (h : ∀ t, c ≠ .append t
   | copy src dst => rfl
   | complete t => rfl
   | delete t m => cases m <;> rfl
-  | deleteObjects b ks =>
+  | deleteObjects b ks refused =>
     simp only [codeEvents, specEvents, mutated, List.map_map]
     apply List.map_congr_left
     intro k _
@@ -205,6 +205,17 @@ theorem rows_belong_to_the_mutated_bucket (cfgOf : Str → Config) (c : Call) (r
   rcases hrow with ⟨r, hr, hs, rfl⟩ | ⟨heb, rfl⟩
   · exact ⟨rfl, rfl, rfl, Or.inl ⟨r, hr, hs, rfl⟩⟩
   · exact ⟨rfl, rfl, rfl, Or.inr ⟨heb, rfl⟩⟩
+
+/-- **refused_batch_entries_emit_nothing.** In a bulk delete every outbox row names one of the keys
+the storage reported as deleted; an entry it refused (stale If-Match ETag, If-Match on a missing
+key) leaves its object in place and gets no ObjectRemoved row — whatever the rules. -/
+theorem refused_batch_entries_emit_nothing (cfgOf : Str → Config) (b : Str) (ks : List (Str × Bool))
+    (refused : List Str) (row : Row) (h : row ∈ entriesForAll cfgOf (codeEvents (.deleteObjects b ks refused))) :
+    row.bucket = b ∧ row.key ∈ ks.map (·.1) := by
+  obtain ⟨mt, hmt, hb, hk, _⟩ := rows_belong_to_the_mutated_bucket cfgOf _ row h
+  simp only [mutated, List.mem_map] at hmt
+  obtain ⟨k, hkin, rfl⟩ := hmt
+  exact ⟨hb, by rw [hk]; exact List.mem_map.2 ⟨k, hkin, rfl⟩⟩
 
 /-- a cross-bucket copy never produces a row for its source bucket (unless source = destination) -/
 theorem copy_rows_name_destination (cfgOf : Str → Config) (src dst : Target) (row : Row)
@@ -242,6 +253,49 @@ theorem backoff_mono (c : DCfg) (n m : Nat) (h : n ≤ m) : backoff c n ≤ back
   unfold backoff
   simp only
   split <;> split <;> omega
+
+/-- **backoff_saturates.** However long an outage lasts: from attempt `MaxBackoff + 2` on (with a
+positive minimum) the delay is exactly MaxBackoff — it never wraps, shrinks or leaves the bounds,
+for every attempt count (the model is over `Nat`; the implementation's float64 / int64 path is
+compared with it by the tie for attempt counts up to 1100, beyond 2^63 ns and beyond +Inf). -/
+theorem backoff_saturates (c : DCfg) (hmin : 0 < c.minBackoff) (n : Nat) (hn : c.maxBackoff + 2 ≤ n) :
+    backoff c n = c.maxBackoff := by
+  have h1 : n - 1 < 2 ^ (n - 1) := Nat.lt_two_pow_self
+  have h2 : 2 ^ (n - 1) ≤ c.minBackoff * 2 ^ (n - 1) := Nat.le_mul_of_pos_left _ hmin
+  unfold backoff
+  simp only
+  split
+  · rfl
+  · omega
+
+/-- **scheduled_delays_within_bounds.** Every backoff any run schedules — from any attempt count
+`a`, however large, with or without lost reports — lies in [MinBackoff, MaxBackoff]
+(`delay = 0` marks a publish after which nothing is scheduled). -/
+theorem scheduled_delays_within_bounds (c : DCfg) (h : c.minBackoff ≤ c.maxBackoff) (a : Nat) (os : List PubOutcome) :
+    ∀ q ∈ (runOutcomes c a os).2, q.delay = 0 ∨ (c.minBackoff ≤ q.delay ∧ q.delay ≤ c.maxBackoff) := by
+  induction os generalizing a with
+  | nil => intro q hq; simp [runOutcomes] at hq
+  | cons o rest ih =>
+    intro q hq
+    cases o with
+    | ok => simp [runOutcomes] at hq; subst hq; exact Or.inl rfl
+    | fail =>
+      by_cases hmax : (c.maxAttempts > 0 && a + 1 ≥ c.maxAttempts) = true
+      · simp [runOutcomes, hmax] at hq; subst hq; exact Or.inl rfl
+      · simp only [runOutcomes, hmax, Bool.false_eq_true, if_false, List.mem_cons] at hq
+        rcases hq with rfl | hq
+        · exact Or.inr ⟨(backoff_bounds c h (a + 1)).1, (backoff_bounds c h (a + 1)).2.1⟩
+        · exact ih (a + 1) q hq
+    | okLost =>
+      simp only [runOutcomes, List.mem_cons] at hq
+      rcases hq with rfl | hq
+      · exact Or.inl rfl
+      · exact ih (a + 1) q hq
+    | failLost =>
+      simp only [runOutcomes, List.mem_cons] at hq
+      rcases hq with rfl | hq
+      · exact Or.inl rfl
+      · exact ih (a + 1) q hq
 
 /-- bookkeeping of `runScript`, for an entry that has made `a` attempts so far -/
 theorem runScript_spec (c : DCfg) (a : Nat) (script : List Bool) :
